@@ -307,6 +307,10 @@ def check(ctx):
     core.check_properties_file(ctx, "Properties/C16.v", THEOREMS, core.AX_NONE)
     core.check_properties_file(ctx, "Properties/C16Cli.v", THEOREMS_CLI, core.AX_NONE)
     run_bridge(ctx)
+    # _parse_met / parse_config_dict / BLDFMConfig.__post_init__ (validate is called there) are on this property's path:
+    # the configuration-parser translator and its bridge lemmas (built for C13) are obligations here too
+    import py2coq_interface
+    py2coq_interface.bridge(ctx, only=("GenConfigParser.v",))
     # the command-line driver: (B) cmd_run / _save_plots from the current source -> GenCli.v -> Bridge/CliBridge.v, (A) observed invocations vs Model/Cli.v
     py2coq_cli.run(ctx)
     try:
